@@ -21,9 +21,9 @@ VERUS_UNITS = {
                    native_search=dict(src='src/msgpack.rs', file='msgpack_search.rs'),
                    props=['C03', 'C18', 'C04', 'C02', 'C06']),
     'U-VAL-V': dict(module='contracts.verus.transcode_value', min_verified=3, timeout=600,
-                    props=['C01', 'C06']),
+                    props=['C01', 'C06', 'C02']),
     'U-JSN-V': dict(module='contracts.verus.json_transcode', min_verified=1, timeout=600,
-                    props=['C03', 'C04']),
+                    props=['C03', 'C04', 'C05', 'C02']),
     'U-TML-V': dict(module='contracts.verus.toml_output', min_verified=9, timeout=600,
                     props=['C08', 'C12', 'C11', 'C10', 'C09']),
     'U-LIB-V': dict(module='contracts.verus.lib_translate', min_verified=9, timeout=600,
@@ -220,7 +220,7 @@ HARNESSES = [
       fns=['yaml::chunker::ChunkReader::read'], timeout=600, expected_failures=[r'slice/index\.rs', r'slice_index'],
       assumes=['expected outcome is the clean slice-index panic only; any pointer / bounds check failing elsewhere is a violation']),
     # ---- U-TX / U-VAL ----
-    H('U-TX', 'stream', 'tx_scalar_forwarding_exact', 'complete', ['C01', 'C06', 'C11', 'C04'], bounds='all 17 scalar visitor methods x every value of every type x serializer ok/fails',
+    H('U-TX', 'stream', 'tx_scalar_forwarding_exact', 'complete', ['C01', 'C06', 'C11', 'C04', 'C02'], bounds='all 17 scalar visitor methods x every value of every type x serializer ok/fails',
       fns=['transcode::stream::Visitor::visit_*', 'transcode::stream::Visitor::forward_scalar', 'transcode::stream::State::take_parent', 'transcode::stream::State::capture_error'],
       timeout=600, min_covers=3),
     H('U-TX', 'stream', 'tx_state_capture_contracts', 'complete', ['C11', 'C04'], bounds='all source/error combinations',
@@ -233,7 +233,7 @@ HARNESSES = [
       fns=['transcode::stream::transcode', 'transcode::stream::Visitor::visit_seq', 'transcode::stream::Visitor::visit_map', 'transcode::stream::SeqSeed/KeySeed/ValueSeed::deserialize',
            'transcode::stream::Forwarder::serialize', 'transcode::stream::Forwarder::serialize_with_seed'], timeout=900, min_covers=3,
       assumes=['serde protocol: one visit_* per deserialize_any; Serialize::serialize called at most once per element']),
-    H('U-TX', 'stream', 'tx_depth_induction_step', 'bounded', ['C11', 'C12', 'C01', 'C06', 'C04'],
+    H('U-TX', 'stream', 'tx_depth_induction_step', 'bounded', ['C11', 'C12', 'C01', 'C06', 'C04', 'C02'],
       bounds='EVERY nesting depth (children in element / key / value position are abstract subtrees that may do anything the subtree contract allows); <= 2 elements / 1 map entry per collection',
       fns=['transcode::stream::Visitor::visit_seq', 'transcode::stream::Visitor::visit_map', 'transcode::stream::SeqSeed/KeySeed/ValueSeed::deserialize',
            'transcode::stream::Forwarder::serialize', 'transcode::stream::Forwarder::serialize_with_seed', 'transcode::stream::State::*'], timeout=900, min_covers=3,
@@ -257,7 +257,7 @@ HARNESSES = [
       fns=['transcode::stream::transcode', 'transcode::stream::Visitor::visit_u64', 'transcode::stream::Visitor::visit_seq', 'transcode::stream::Visitor::visit_map'], timeout=900, min_covers=2),
     H('U-TX', 'stream', 'tx_msgpack_e2e_map', 'bounded', ['C01', 'C06'], bounds='document {"k": null}; REAL rmp_serde serializer behind the REAL transcoder',
       fns=['transcode::stream::transcode', 'transcode::stream::Visitor::visit_u64', 'transcode::stream::Visitor::visit_seq', 'transcode::stream::Visitor::visit_map'], timeout=900, min_covers=0),
-    H('U-VAL', 'value', 'value_scalar_types_and_bits_kept', 'complete', ['C08', 'C01', 'C06'], bounds='18 visit forms (all scalar widths, char, unit, three string forms) x every 128-bit payload',
+    H('U-VAL', 'value', 'value_scalar_types_and_bits_kept', 'complete', ['C08', 'C01', 'C06', 'C02'], bounds='18 visit forms (all scalar widths, char, unit, three string forms) x every 128-bit payload',
       fns=['transcode::value::Value::deserialize', 'transcode::value::Value::serialize'], timeout=900, min_covers=4),
     # ---- U-YML / U-TOML / U-JSN / U-LIB / U-EXT ----
     H('U-YML', 'yaml', 'yaml_slice_fast_path_requires_utf8', 'complete', ['C07', 'C02'], bounds='every slice of length 0..=4 (the detector reads 4 bytes)',
@@ -350,7 +350,7 @@ PROPERTIES = {
         explanation='Schedule transparency of every reader xt owns (CaptureReader, FusedReader chain, Utf16/Utf32 decoders, Utf8Encoder, ChunkReader): the bytes '
                     'handed to the consumer are a function of the bytes delivered by the source for every pattern of short reads (step-inductive contracts). '
                     'MessagePack slice vs reader: Verus proves next_value_size == mp_value and rmp_value => mp_value, so the slice cut is where rmp_serde stops. '
-                    'YAML slice fast path only for UTF-8-encoded streams (repaired defect F2). '
+                    'YAML slice fast path only for UTF-8-encoded streams (repaired defect F2). JSON slice input is translated through transcode::Value and JSON reader input through the streaming transcoder: both are proved to be the identity on serde events (U-VAL-V / value_scalar_types_and_bits_kept; tx_scalar_forwarding_exact / tx_depth_induction_step), and U-JSN-V proves that both loops offer every document once, so the two supply modes hand the serializer the same events. '
                     'Verus (U-CAP-V, U-ENC-V, U-CHK-V) proves the step contracts of CaptureReader::read, Utf8Encoder::read and ChunkReader::read on the verbatim code for EVERY buffer size and stream length, '
                     'and theorems over those contracts (reads after a rewind replay the stream from byte 0; any read schedule of the re-encoder concatenates to utf8(text)); the Kani harnesses run the same code against the real std within size bounds.',
         assumptions=['std::io::{Read, Write, Cursor, Take}, Vec::drain, mem::replace, char::encode_utf8, Iterator (vstd prophetic model) carry assumed specifications in the Verus units (listed in coverage.trusted_base)', 'BufReader and the parsers\' own readers honour the Read contract', 'rmp_value: assumed spec of rmp_serde',
